@@ -65,10 +65,15 @@ trait HueApi<F: Fl>: Copy {
     fn rawrad(self) -> F;
     fn inner(self) -> F;
     fn conv(self) -> F; // From<Hue<F>> for F
+    fn convx(self) -> f64; // From<Hue<f32>> for f64 / From<Hue<f64>> for f32 (the other float type), widened exactly
+    fn s_add_assign(s: F, h: Self) -> F; // scalar += hue
+    fn s_sub_assign(s: F, h: Self) -> F; // scalar -= hue
     fn from_cart(a: F, b: F) -> Self;
     fn cart(self) -> (F, F);
     fn eq_h(self, o: Self) -> bool;
     fn eq_s(self, o: F) -> bool;
+    /// the 8-bit hues of two codes compared (AngleEq for u8), and each read back as its code
+    fn eq_u8(k1: u8, k2: u8) -> bool;
     fn add_h(self, o: Self) -> Self;
     fn add_s(self, o: F) -> Self;
     fn s_add(s: F, h: Self) -> Self;
@@ -96,10 +101,18 @@ macro_rules! impl_api {
             fn rawrad(self) -> $F { self.into_raw_radians() }
             fn inner(self) -> $F { self.into_inner() }
             fn conv(self) -> $F { <$F>::from(self) }
+            fn convx(self) -> f64 { <$H<$F> as CrossConv>::cross(self) }
+            fn s_add_assign(s: $F, h: Self) -> $F { let mut a = s; a += h; a }
+            fn s_sub_assign(s: $F, h: Self) -> $F { let mut a = s; a -= h; a }
             fn from_cart(a: $F, b: $F) -> Self { $H::from_cartesian(a, b) }
             fn cart(self) -> ($F, $F) { self.into_cartesian() }
             fn eq_h(self, o: Self) -> bool { self == o }
             fn eq_s(self, o: $F) -> bool { self == o }
+            fn eq_u8(k1: u8, k2: u8) -> bool {
+                let (h1, h2) = ($H::<u8>::new(k1), $H::<u8>::new(k2));
+                assert!(u8::from(h1) == k1 && h2.into_inner() == k2, "an 8-bit hue does not give back its code");
+                h1 == h2
+            }
             fn add_h(self, o: Self) -> Self { self + o }
             fn add_s(self, o: $F) -> Self { self + o }
             fn s_add(s: $F, h: Self) -> Self { s + h }
@@ -113,6 +126,14 @@ macro_rules! impl_api {
         }
     };
 }
+/// the `From` impls between a hue and the OTHER float type
+trait CrossConv { fn cross(self) -> f64; }
+macro_rules! impl_cross { ($($H:ident),*) => { $(
+    impl CrossConv for $H<f32> { fn cross(self) -> f64 { f64::from(self) } }
+    impl CrossConv for $H<f64> { fn cross(self) -> f64 { f32::from(self) as f64 } }
+)* }; }
+impl_cross!(RgbHue, LabHue, LuvHue, OklabHue, Cam16Hue);
+
 macro_rules! impl_api_all { ($($H:ident),*) => { $( impl_api!($H, f32); impl_api!($H, f64); )* }; }
 impl_api_all!(RgbHue, LabHue, LuvHue, OklabHue, Cam16Hue);
 
@@ -150,11 +171,20 @@ fn nums<F: Fl>(xs: &[F]) -> Vec<Value> { xs.iter().map(|x| x.ex()).collect() }
 // one function per event op -----------------------------------------------------------------
 
 fn do_signed<F: Fl, H: HueApi<F>>(o: &mut Out, x: F, m: &str) {
+    if m == "fromx" {
+        // From<Hue<F>> for the OTHER float type; one side is f32, so TraceHue judges it at f32 precision
+        let r = catch(|| H::new(x).convx());
+        o.ev("signed", H::NAME, F::NAME, m, nums(&[x]), r.map(|y| (vec![y.ex()], -1)), -1);
+        return;
+    }
     let r = catch(|| match m {
         "from" => H::new(x).conv(),
         _ => H::new(x).deg(),
     });
     o.ev("signed", H::NAME, F::NAME, m, nums(&[x]), r.map(|y| (nums(&[y]), -1)), -1);
+    if m == "from" {
+        do_signed::<F, H>(o, x, "fromx");
+    }
 }
 fn do_unsigned<F: Fl, H: HueApi<F>>(o: &mut Out, x: F) {
     let r = catch(|| H::from_degrees(x).pos());
@@ -162,6 +192,7 @@ fn do_unsigned<F: Fl, H: HueApi<F>>(o: &mut Out, x: F) {
 }
 fn do_eq<F: Fl, H: HueApi<F>>(o: &mut Out, x1: F, x2: F, m: &str) {
     let r = catch(|| match m {
+        "u8" => H::eq_u8((x1.as_f64() / 1.40625).round() as u8, (x2.as_f64() / 1.40625).round() as u8),
         "hs" => H::new(x1).eq_s(x2),
         _ => H::new(x1).eq_h(H::new(x2)),
     });
@@ -200,10 +231,12 @@ fn do_addsub<F: Fl, H: HueApi<F>>(o: &mut Out, op: &str, x1: F, x2: F, m: &str) 
         ("add", "hh") => H::new(x1).add_h(H::new(x2)).inner(),
         ("add", "hs") => H::new(x1).add_s(x2).inner(),
         ("add", "sh") => H::s_add(x1, H::new(x2)).inner(),
+        ("add", "sa") => H::s_add_assign(x1, H::new(x2)),          // scalar += hue
         ("add", _) => H::new(x1).add_assign_h(H::new(x2)).inner(), // "as": +=
         ("sub", "hh") => H::new(x1).sub_h(H::new(x2)).inner(),
         ("sub", "hs") => H::new(x1).sub_s(x2).inner(),
         ("sub", "sh") => H::s_sub(x1, H::new(x2)).inner(),
+        ("sub", "sa") => H::s_sub_assign(x1, H::new(x2)),          // scalar -= hue
         _ => H::new(x1).sub_assign_s(x2).inner(), // "as": -=
     });
     o.ev(op, H::NAME, F::NAME, m, nums(&[x1, x2]), r.map(|z| (nums(&[z]), -1)), -1);
@@ -472,6 +505,15 @@ where
     for k in 0..=255u8 {
         for i in 0..5 { on!(i, H => do_from_u8::<F, H<F>>(o, k)); }
     }
+    if F::PREC == 24 {
+        // 8-bit hues compared with each other (AngleEq for u8) and read back as their code: judged by the same equality
+        // relation on the exact angles k * 360 / 256 the codes denote
+        for k1 in 0..=255u8 {
+            for k2 in [k1, k1.wrapping_add(1), k1.wrapping_add(128), 255 - k1, 0] {
+                on!(k1 as usize, H => do_eq::<F, H<F>>(o, F::of(k1 as f64 * 1.40625), F::of(k2 as f64 * 1.40625), "u8"));
+            }
+        }
+    }
     let mut u8in: Vec<F> = edge.clone();
     for n in 0..256i64 {
         let centre = F::of(n as f64 * 45.0 / 32.0);
@@ -493,14 +535,14 @@ where
     }
 
     // --- Add / Sub ----------------------------------------------------------------------------
-    let modes = ["hh", "hs", "sh", "as"];
+    let modes = ["hh", "hs", "sh", "as", "sa", "hh"];
     let mut n = 0usize;
     let fixed: [(f64, f64); 10] = [(350.0, 20.0), (180.0, 180.0), (-180.0, -180.0), (0.0, 360.0), (1.0e6, 1.0e6), (-1.0e6, 1.0e6), (0.1, 0.2), (359.9, 0.1), (1.0e6, -0.001), (720.0, -1080.0)];
     let mut pairs: Vec<(F, F)> = fixed.iter().map(|&(a, b)| (F::of(a), F::of(b))).collect();
     for _ in 0..(250 * p.other_scale) { pairs.push((random_angle::<F>(&mut rng), random_angle::<F>(&mut rng))); }
     for &(a, b) in &pairs {
-        let m = modes[n % 4];
-        on!(rr, H => { do_addsub::<F, H<F>>(o, "add", a, b, m); do_addsub::<F, H<F>>(o, "sub", a, b, modes[(n + 1) % 4]); });
+        let m = modes[n % 6];
+        on!(rr, H => { do_addsub::<F, H<F>>(o, "add", a, b, m); do_addsub::<F, H<F>>(o, "sub", a, b, modes[(n + 1) % 6]); });
         rr += 1;
         n += 1;
     }
